@@ -140,8 +140,15 @@ func RunCheck(id string, opts *Options) (*Report, int) {
 			ck.Targets = append(ck.Targets, t)
 			run := e.VerifyFunc(t.Fn, t.C)
 			rep.Funcs = append(rep.Funcs, run.FnName)
-			for _, u := range run.Unsupp {
-				rep.Broken = append(rep.Broken, run.FnName+": unsupported: "+u)
+			for i, u := range run.Unsupp {
+				// the contract cannot be checked against this body (construct outside
+				// the supported subset, or the contract no longer applies to the code):
+				// never on the unchanged tree; on a changed tree it is a failed obligation
+				fmt.Printf("NOTE: %s: not verifiable: %s\n", run.FnName, u)
+				if i < 3 {
+					goals = append(goals, &Goal{Oblig: run.FnName + "/contract-applicable", Fn: run.FnName, Goal: False, Expect: "unsat",
+						Detail: "not verifiable: " + u, Raw: "(set-logic ALL)\n(check-sat)\n; " + strings.ReplaceAll(u, "\n", " ") + "\n"})
+				}
 			}
 			n := 0
 			for _, g := range run.Goals {
